@@ -783,6 +783,20 @@ done:
 							}
 						}
 					}
+				case Keyed:
+					keys := tv.Keys()
+					sort.Strings(keys)
+					for _, k := range keys {
+						v, _ = tv.ValueForKey(k)
+						if tf.matchRoot(v, data) {
+							if nv, changed := modifier(v); changed {
+								tv.SetValueForKey(k, nv)
+								if one && changed {
+									break done
+								}
+							}
+						}
+					}
 				default:
 					rv := reflect.ValueOf(tv)
 					switch rv.Kind() {
